@@ -223,6 +223,10 @@ theorem C02_no_lock_across_closure :
     Skeleton.current.clLookupUnderLock = true ∧ Skeleton.current.clInsertUnderLock = true ∧
     Skeleton.current.clDeleteUnderLock = true := by decide
 
+/-- M3 has no step by which ONE call's own context ends the link under everybody else: `Receive` fails only on a closed table (a nested call made by a handler whose own deadline has passed is registered and then returns its context's error), and the stub panics only on failures of the link (both checked against the regenerated skeleton; `utils/broadcaster.go` is outside this property's anchors). Otherwise one slow handler's late nested call would take down a stalled chain and every independent call of the link. -/
+theorem C02_a_handlers_expired_nested_call_is_not_fatal :
+    Skeleton.current.bcReceiveErrorsOnlyClosed = true ∧ Skeleton.current.panicSitesCanonical = true := by decide
+
 end Panrpc.Sys
 
 #print axioms Panrpc.Sys.C02_loops_never_wait
@@ -237,3 +241,4 @@ end Panrpc.Sys
 #print axioms Panrpc.Sys.C02_limited_loop_stalled_handler_blocks_others
 #print axioms Panrpc.Sys.C02_needs_nonblocking_wrappers
 #print axioms Panrpc.Sys.C02_window_stalled_handler_blocks_others
+#print axioms Panrpc.Sys.C02_a_handlers_expired_nested_call_is_not_fatal
